@@ -597,6 +597,27 @@ def run(ctx):
                        % short(s), construct='parse_args: ' + short(s))
     ctx.assume('equality of the trees produced by the legacy and the new entry points on all inputs '
                'is not decided; the rules decide the wiring between them')
+    # ---- R16o (C10 R10i): legacy args_math_mode entries
+    ctx.rule('R16o', 'MacroStandardArgsParser: an args_math_mode entry False forces text mode and only None '
+                     'keeps the mode, as the LatexArgumentSpec spelling does (C10 R10i)', 1)
+    from . import c10 as _c10
+    from .. import core as _core
+    _c10.run(_core.Proxy(ctx, 'R16o', ('R10i',)))
+
+    # ---- R16n
+    ctx.rule('R16n', 'a boolean option of a legacy method that selects a parsing-state switch (environments) reaches '
+                     'the state as itself for each of True / False / None and either value of the switch in the '
+                     'given state (evaluated per path)', 1)
+    _flag_options(ctx, w)
+
+    # ---- R16p, R16q
+    ctx.rule('R16p', 'legacy entry points read only attributes that the object returned by an arguments parser '
+                     '(ParsedArguments) defines', 0)
+    _parsed_arguments_typed(ctx, repo)
+    ctx.rule('R16q', 'MacroStandardArgsParser: end of input where an optional star may stand means "no star" '
+                     '(token read inside a handler for LatexWalkerEndOfStream)', 1)
+    _legacy_star_at_eos(ctx, repo)
+
     return 'other', (
         'Decides the wiring of the backward-compatible entry points onto the new parser objects: '
         'which parser each one builds, that every option is live and forwarded, that stop options '
@@ -686,3 +707,201 @@ def _required_when(f, var):
                 return None
             out.add(h.group(1))
     return out
+
+
+
+_UNK = object()
+
+
+def _pval(e, assume):
+    """value of a substituted expression under `assume` (text -> python value), else _UNK"""
+    if isinstance(e, ast.Constant):
+        return e.value
+    k = unparse(e)
+    if k in assume:
+        return assume[k]
+    if isinstance(e, ast.UnaryOp) and isinstance(e.op, ast.Not):
+        v = _pval(e.operand, assume)
+        return _UNK if v is _UNK else (not v)
+    if isinstance(e, ast.BoolOp):
+        vs = [_pval(x, assume) for x in e.values]
+        if isinstance(e.op, ast.And):
+            for v in vs:
+                if v is _UNK:
+                    return _UNK if not any(w is not _UNK and not w for w in vs) else False
+                if not v:
+                    return v
+            return vs[-1]
+        for v in vs:
+            if v is _UNK:
+                return _UNK if not any(w is not _UNK and w for w in vs) else True
+            if v:
+                return v
+        return vs[-1]
+    if isinstance(e, ast.Compare) and len(e.ops) == 1:
+        a, b = _pval(e.left, assume), _pval(e.comparators[0], assume)
+        if a is _UNK or b is _UNK:
+            return _UNK
+        op = e.ops[0]
+        if isinstance(op, ast.Is):
+            return a is b
+        if isinstance(op, ast.IsNot):
+            return a is not b
+        if isinstance(op, ast.Eq):
+            return a == b
+        if isinstance(op, ast.NotEq):
+            return a != b
+    if isinstance(e, ast.Call) and isinstance(e.func, ast.Name) and e.func.id == 'bool' and len(e.args) == 1:
+        v = _pval(e.args[0], assume)
+        return _UNK if v is _UNK else bool(v)
+    if isinstance(e, ast.IfExp):
+        t = _pval(e.test, assume)
+        if t is _UNK:
+            return _UNK
+        return _pval(e.body if t else e.orelse, assume)
+    return _UNK
+
+
+def _flag_options(ctx, w):
+    """R16n: a boolean option of a legacy method that selects a parsing-state switch
+    (environments -> enable_environments) ends up in the state as itself: for every value of the
+    option (True, False, None = keep) and of the switch in the given state, on every feasible
+    path, the switch finally is the option's value (or unchanged for None)"""
+    n = 0
+    for shim, fnode in sorted(w.functions.items()):
+        if not shim.startswith('_pyltxenc2_LatexWalker_') or '.' in shim:
+            continue
+        params = [a.arg for a in fnode.args.args[1:]]
+        stores = {}
+        for st in iter_own(fnode):
+            if isinstance(st, ast.Assign) and len(st.targets) == 1 and isinstance(st.targets[0], ast.Subscript) \
+                    and isinstance(st.targets[0].slice, ast.Constant) and \
+                    str(st.targets[0].slice.value).startswith('enable_'):
+                stores.setdefault(st.targets[0].slice.value, []).append(st)
+        for field, sts in sorted(stores.items()):
+            mention = set()
+            for st in sts:
+                for e in [st.value] + [t for t, _p in atomic_facts(st)]:
+                    mention |= {x.id for x in ast.walk(e) if isinstance(x, ast.Name) and x.id in params}
+            mention -= {'parsing_state'}
+            if len(mention) != 1:
+                continue
+            opt = sorted(mention)[0]
+            try:
+                cases = symex.Walker(want_exits=True, trace=True, stmt_sink=lambda s_: s_ in sts).run(fnode)
+            except symex.TooManyPaths:
+                ctx.unknown('R16n', w, fnode, 'too many paths', construct='%s: option %s' % (shim, opt))
+                continue
+            n += 1
+            bad = unk = None
+            for ov in (True, False, None):
+                for sv in (True, False):
+                    assume = {opt: ov, 'parsing_state.' + field: sv, 'parsing_state is None': False}
+                    want = sv if ov is None else ov
+                    for cs in cases:
+                        if cs.kind not in ('return', 'end'):
+                            continue
+                        if any((_pval(t, assume) is not _UNK) and bool(_pval(t, assume)) != pol for t, pol in cs.conds):
+                            continue
+                        last = [t_ for t_ in cs.env.get('#trace', ()) if t_[0] in sts]
+                        got = sv
+                        if last:
+                            got = _pval(symex.subst(last[-1][0].value, cs.env), assume)
+                            # the trace records the statement; its value is evaluated with the option bound
+                            if got is _UNK:
+                                got = _pval(last[-1][0].value, assume)
+                        if got is _UNK:
+                            unk = unk or (ov, sv, cs)
+                        elif bool(got) != bool(want) and bad is None:
+                            bad = (ov, sv, got, cs)
+            cons = '%s: option %s -> %s' % (shim.replace('_pyltxenc2_LatexWalker_', ''), opt, field)
+            if bad is not None:
+                ctx.refuted('R16n', w, sts[0], 'with %s=%r and a parsing state whose %s is %r the token is read with '
+                            '%s=%r on the path [%s]: the option does not reach the state as itself, so \\begin/\\end '
+                            'are tokenised differently from a token reader given the state the option describes'
+                            % (opt, bad[0], field, bad[1], field, bad[2], ' & '.join(bad[3].cond_src())[-140:]),
+                            construct=cons)
+            elif unk is not None:
+                ctx.unknown('R16n', w, sts[0], 'value stored for %s not evaluable with %s=%r' % (field, opt, unk[0]),
+                            construct=cons)
+            else:
+                ctx.holds('R16n', w, sts[0], 'for %s in (True, False, None) x state %s in (True, False): the switch '
+                          'ends as the option says on every feasible path' % (opt, field), construct=cons)
+    if n == 0:
+        ctx.unknown('R16n', w, None, 'no boolean option mapped to a parsing-state switch found',
+                    construct='flag options')
+
+
+
+def _parsed_arguments_typed(ctx, repo):
+    """R16p: what an arguments parser returns is a ParsedArguments object; the legacy entry points
+    read only attributes that class has (it carries no position or length)"""
+    pm = repo.mod('pylatexenc.latexnodes._parsedargs')
+    cls = pm.cls('ParsedArguments')
+    have = set()
+    for n in ast.walk(cls):
+        if isinstance(n, ast.FunctionDef):
+            have.add(n.name)
+        if isinstance(n, ast.Attribute) and isinstance(n.ctx, ast.Store) and isinstance(n.value, ast.Name) \
+                and n.value.id == 'self':
+            have.add(n.attr)
+        if isinstance(n, ast.Assign) and getattr(n, '_parent', None) is cls:
+            for t in n.targets:
+                if isinstance(t, ast.Name):
+                    have.add(t.id)
+    # the _fields tuple names attributes set through setattr-style helpers
+    for n in ast.walk(cls):
+        if isinstance(n, ast.Assign) and any(isinstance(t, ast.Name) and t.id == '_fields' for t in n.targets) \
+                and isinstance(n.value, (ast.Tuple, ast.List)):
+            have |= {e.value for e in n.value.elts if isinstance(e, ast.Constant)}
+    n_reads = 0
+    for modname in (SPEC, ARGP, WALKER):
+        mod = repo.mod(modname)
+        for q, f in sorted(mod.functions.items()):
+            typed = set()
+            for st in iter_own(f):
+                if isinstance(st, ast.Assign) and isinstance(st.value, ast.Call) and call_name(st.value) == 'parse_content' \
+                        and st.value.args and unparse(st.value.args[0]).endswith('.arguments_parser') \
+                        and isinstance(st.targets[0], ast.Tuple) and st.targets[0].elts \
+                        and isinstance(st.targets[0].elts[0], ast.Name):
+                    typed.add(st.targets[0].elts[0].id)
+            for x in iter_own(f):
+                if isinstance(x, ast.Attribute) and isinstance(x.ctx, ast.Load) and isinstance(x.value, ast.Name) \
+                        and x.value.id in typed:
+                    n_reads += 1
+                    ctx.decide('R16p', x.attr in have or x.attr.startswith('__'), mod, enclosing_stmt(x) or x,
+                               '%s.%s is an attribute of ParsedArguments' % (x.value.id, x.attr),
+                               '%s reads %s.%s from the object an arguments parser returned: ParsedArguments has no '
+                               'attribute %s (it carries no position or length), so the legacy entry point raises '
+                               'AttributeError for every specification instead of returning (arguments, pos, len)'
+                               % (q, x.value.id, x.attr, x.attr), construct='%s: %s.%s' % (q, x.value.id, x.attr))
+    ctx.holds('R16p', repo.mod(SPEC), None, '%d attribute read(s) on parsed-arguments results examined against the %d '
+              'attributes ParsedArguments defines' % (n_reads, len(have)), construct='parsed arguments attribute scan',
+              trivial=True)
+
+
+def _legacy_star_at_eos(ctx, repo):
+    """R16q: the legacy parser reads the token for an optional star inside a handler for the end
+    of the input (no token = no star), as the new parser does (C02 R02k)"""
+    bm = repo.mod(BASE)
+    pa = bm.methods('MacroStandardArgsParser').get('parse_args')
+    if pa is None:
+        raise AnalysisError('anchor vanished: MacroStandardArgsParser.parse_args')
+    n = 0
+    for c in [x for x in iter_own(pa) if isinstance(x, ast.Call) and call_name(x) == 'get_token']:
+        facts = [(unparse(t), pol) for t, pol in atomic_facts(c)]
+        if not any(pol and "== '*'" in t for t, pol in facts):
+            continue
+        n += 1
+        prot = False
+        for p_ in parents(c):
+            if isinstance(p_, ast.Try) and any(c is x for b in p_.body for x in ast.walk(b)) and any(
+                    hd.type is None or any(nm in unparse(hd.type) for nm in (
+                        'LatexWalkerEndOfStream', 'LatexWalkerError', 'Exception')) for hd in p_.handlers):
+                prot = True
+        ctx.decide('R16q', prot, bm, c, 'the star token is read inside a handler for end of stream',
+                   'the token for an optional star is read outside any handler for LatexWalkerEndOfStream: at the end '
+                   'of the input the exception aborts the whole argument list (nodeargd is None) where the same '
+                   'signature given as an argument string reports the star absent', construct='parse_args: star at end of input')
+    if n == 0:
+        ctx.unknown('R16q', bm, pa, 'no token read for a star slot found', construct='parse_args: star at end of input')
